@@ -3,7 +3,10 @@
 Theorems: coq/theories/Properties/C25.v (about Front/Create.v `create_nest` and
 Front/Trials.v: sustain arithmetic, trial count of a Nest).
 Correspondence: L1-create / L1-trials of props/c16.py on every block of the generated
-Nest programs (the model's `create_nest` arguments and trial arithmetic vs the real ones).
+Nest programs (the model's `create_nest` arguments and trial arithmetic vs the real ones);
+L1-nestsem: the normal form [nest_sem So Si] of Front/NestSem.v (the object of theorem
+C25_nest_groups) vs the reference-semantics normal form docsem.py builds for the Nest from
+the documentation, for every Nest program inside the theorem's guard [nestable_b].
 Search (the property itself; the group specification is written here, the validity of
 the parts is judged by the reference oracle of the outer block alone and of the inner
 block alone - docsem.doc_sem(program, bid) - never by the library):
@@ -131,6 +134,52 @@ def hand_programs():
                    {"id": 1, "kind": "CrossBlock", "design": [1], "crossing": [1], "constraints": [], "rcc": True},
                    {"id": 2, "kind": "Nest", "outer": 0, "inner": 1, "constraints": []}], "main": 2, "shape": "hand"}))
     return out
+
+
+def nestable_family():
+    """Constraint-free Nests of simple factors (the guard of C25_nest_groups): the documentation's normal form of
+    the Nest (docsem) must be Front/NestSem.v's [nest_sem] of the normal forms of the two argument blocks."""
+    out = []
+    for nA, nB, outer_two, inner_rep, outer_free in ((2, 2, False, 0, False), (2, 3, False, 0, False), (3, 2, False, 0, False),
+                                                      (2, 2, True, 0, False), (2, 2, False, 4, False), (2, 3, False, 6, False),
+                                                      (3, 2, False, 4, False), (2, 2, False, 0, True), (2, 2, False, 3, False)):
+        A = F(0, "A", ["a%d" % i for i in range(nA)])
+        B = F(1, "B", ["b%d" % i for i in range(nB)])
+        C = F(2, "C", ["c0", "c1"])
+        D = F(3, "D", ["d0", "d1"])
+        cons = []
+        od, oc = ([0, 2], [0, 2]) if outer_two else (([0, 3], [0]) if outer_free else ([0], [0]))
+        blocks = [{"id": 0, "kind": "CrossBlock", "design": od, "crossing": oc, "constraints": [], "rcc": True},
+                  {"id": 1, "kind": "CrossBlock", "design": [1], "crossing": [1], "constraints": [], "rcc": True}]
+        inner = 1
+        if inner_rep:
+            cons.append({"id": 0, "kind": "MinimumTrials", "trials": inner_rep})
+            blocks.append({"id": 2, "kind": "Repeat", "block": 1, "constraints": [0]})
+            inner = 2
+        blocks.append({"id": len(blocks), "kind": "Nest", "outer": 0, "inner": inner, "constraints": []})
+        out.append(("nestable", {"factors": [A, B, C, D], "constraints": cons, "blocks": blocks, "main": blocks[-1]["id"],
+                                 "shape": "nestable"}))
+    return out
+
+
+def nestsem_observation(program):
+    """(model line, expected) or None: the documented normal forms of outer block, inner block and Nest."""
+    main = block_desc(program, program["main"])
+    if main["kind"] != "Nest" or main.get("constraints"):
+        return None          # nest_sem is the form of Nest(outer, inner) without constraints of its own
+    try:
+        o, i, n = docsem.doc_sem(program, main["outer"]), docsem.doc_sem(program, main["inner"]), docsem.doc_sem(program)
+    except docsem.Unsupported:
+        return None
+
+    def show(sem):
+        T, fs, cs, ks = sem
+        return "(%d (%s) (%s) %d)" % (
+            T, " ".join("(%d %d %s)" % (f[0], f[1], "none" if f[2] is None else "derived") for f in fs),
+            " ".join("((%s) %d %d (%s))" % (" ".join(map(str, c[0])), c[1], c[2],
+                                            " ".join("((%s) %d)" % (" ".join(map(str, m[0])), m[1]) for m in c[3])) for c in cs),
+            len(ks))
+    return "(nestsem %s %s)" % (to_wire(o.sem), to_wire(i.sem)), show(n.sem)
 
 
 def assoc_pair(rng):
@@ -332,7 +381,12 @@ def check_program(program, stats):
             s, why = bad[0]
             kind = ("not-constant" if "not constant" in why else "outer-invalid" if "outer block" in why else
                     "inner-invalid" if "inner block" in why else "length")
-            found.append(("nest:groups:%s" % kind if strat == "IterateSATGen" else "nest:groups:%s:%s" % (kind, strat),
+            if kind == "inner-invalid" and any(c[2] and Ti % c[2] for c in ids.sem[2]):
+                # the inner trial count is not a multiple of an inner crossing's chunk: the Nest keeps cutting the
+                # inner crossing every chunk trials across the group boundaries
+                kind = "inner-partial-chunk"
+            found.append(("nest:groups:%s" % kind if strat == "IterateSATGen" or kind == "inner-partial-chunk"
+                          else "nest:groups:%s:%s" % (kind, strat),
                           "%s returns a Nest sequence violating the group specification (%d of %d returned): %s; sequence %s"
                           % (strat, len(bad), len(samples), why, {k: list(v) for k, v in s.items() if isinstance(k, str)}),
                           {"strategy": strat, "why": why, "sample": {str(k): list(v) for k, v in s.items()}}))
@@ -356,7 +410,8 @@ def check_program(program, stats):
             if real != comp:
                 missing = sorted(k for k in comp if real.get(k, 0) < comp[k])
                 extra = sorted(k for k in real if comp.get(k, 0) < real[k])
-                found.append(("nest:converse" if missing else "nest:extra",
+                partial = any(c[2] and Ti % c[2] for c in ids.sem[2])
+                found.append(("nest:converse:inner-partial-chunk" if partial else "nest:converse" if missing else "nest:extra",
                               "exhausted IterateSATGen returns %d sequences; the compositions of valid outer sequences (%d trials) with "
                               "valid inner sequences (%d trials) per group number %d; compositions never returned: %s; returned but no "
                               "composition: %s" % (sum(real.values()), To, Ti, total, [show_key(k) for k in missing[:2]],
@@ -394,7 +449,7 @@ def run(ctx, res):
     n = 18 if ctx.quick else 120
     nassoc = 4 if ctx.quick else 30
     rng = ctx.rng
-    progs = hand_programs() + [("gen", gen_nest(rng)) for _ in range(n)]
+    progs = hand_programs() + nestable_family() + [("gen", gen_nest(rng)) for _ in range(n)]
     res.rule = ("%d generated Nest programs (outer / inner CrossBlock or single-crossing MultiCrossBlock over 2-3-level factors, block "
                 "constraints AtMostKInARow / ExactlyK / Pin / Sequential / AtLeastKInARow, sometimes a Nest-level constraint, Nest in "
                 "Nest on either side) + %d associativity pairs; exhausted IterateSATGen (cap %d) and RandomGen; non-trivial = a "
@@ -414,6 +469,10 @@ def run(ctx, res):
                 if blk is not None and st["recorded"] is not None:
                     lines.append("(trials %s %s %s)" % (flat.flat_wire(blk), st["recorded"]["mode"], to_wire(list(st["recorded"]["weights"]))))
                     expect.append(("trials", c16.real_trials_view(blk), p))
+            ob = nestsem_observation(p)
+            if ob is not None:
+                lines.append(ob[0])
+                expect.append(("nestsem", ob[1], p))
             fs, status = check_program(p, stats)
         except Exception as e:  # noqa
             found.append(("harness", "harness error: %s %s" % (type(e).__name__, str(e)[:300]), {}, p, False))
@@ -442,6 +501,15 @@ def run(ctx, res):
                 mv = c16.model_create_view(mod)[0]
             except Exception:  # noqa
                 mv = "!" + mod
+        elif kind == "nestsem":
+            # Front/NestSem.v nest_sem(outer form, inner form) vs the documentation's form of the Nest; claimed
+            # only under the guard nestable_b of C25_nest_groups
+            guard, _, msem = mod.partition(" ")
+            if guard != "true":
+                stats["nestsem:outside-guard"] += 1
+                continue
+            stats["nestsem:nestable"] += 1
+            rv, mv = real, msem
         else:
             rv, mv = real, c16.model_trials_view(mod)
         ok = (rv == mv)
